@@ -205,6 +205,37 @@ def rand_meta(rng, wf=True):
     return md
 
 
+def rich_meta(rng, nkeys=None):
+    """metadata inside the formats' domain that exercises the documented per-line normalisation: blank and whitespace-only
+    lines between, before and after text lines, padded lines, padded keys, many keys"""
+    md = {}
+    for _ in range(nkeys if nkeys is not None else rng.choice([1, 1, 2, 3, 12])):
+        k = rand_text(rng, 1, 8, SAFE.replace(' ', ''))
+        if rng.random() < 0.3:
+            k = rng.choice(['', ' ', '  ']) + k + ' ' + rand_text(rng, 1, 4, SAFE.replace(' ', '')) + rng.choice(['', ' '])
+        lines = []
+        for _ in range(rng.choice([1, 2, 3, 4, 6])):
+            r = rng.random()
+            if r < 0.25 and lines:
+                lines.append(rng.choice(['', '', ' ', '   ', '\t']))
+            else:
+                l = rand_text(rng, 1, 16, SAFE).strip() or 'x'
+                if rng.random() < 0.3:
+                    l = rng.choice([' ', '   ', '\t']) + l + rng.choice(['', ' ', '  '])
+                lines.append(l)
+        if rng.random() < 0.3:
+            lines.append('')
+        if rng.random() < 0.15:
+            lines.insert(0, '')
+        md[k] = '\n'.join(lines)
+    return md
+
+
+META_SPECIAL = [{'k': 'a\n\nb'}, {'k': 'a\n   \nb\n\n\nc'}, {'k': '  padded  \n\tx\t'}, {'k': 'x\n'}, {'k': '\nx'}, {' k ': 'v', 'k2': ' v2 '},
+                {'para': 'first paragraph\nstill first\n\nsecond paragraph\n \nthird'}, {f'key{i}': f'value {i}\n\nmore {i}' for i in range(12)},
+                {'a b': 'x', 'a  c': 'y'}, {'k': 'M  END\n\n$DATUM x\n\n> <'}]
+
+
 def decorate_fields(rng, mol):
     """random charges (incl. +-4), isotopes, radicals directly on the atom slots (text-layer stress; valence not kept)."""
     for n, a in mol.atoms():
@@ -245,11 +276,47 @@ FIELD_MIX = [
 ]
 
 
+def _chain(n, head, mid):
+    return head + mid * (n - 2) + head
+
+
+# quantity-dependent behaviour: MORE THAN 8 (and other than a multiple of 8) labelled atoms of each kind, many wedges, >99 atoms
+MANY_LABELS = (
+    [_chain(n, '[13CH3]', '[13CH2]') for n in (8, 9, 12, 16, 17, 23)] +
+    ['.'.join(['[CH3]'] * n) for n in (9, 17)] + ['.'.join(['[Ti+4]'] * n + ['[Cl-]'] * (4 * n)) for n in (9,)] +
+    ['.'.join(['[C-4]'] * 10 + ['[Na+]'] * 40), '.'.join(['[13CH3]'] * 9 + ['[CH3]'] * 9 + ['[Zr+4]'] * 9 + ['[F-]'] * 36),
+     '[2H]C1=C([2H])C([2H])=C([2H])C([2H])=C1C([2H])([2H])C([2H])([2H])[2H]',
+     'OC[C@H](O)[C@@H](O)[C@H](O)[C@H](O)[C@@H](O)[C@H](O)[C@@H](O)[C@@H](O)[C@H](O)[C@H](O)CO', 'C' * 120,
+     '[13CH3][13CH]([13CH3])[13CH2][13C]([13CH3])([13CH3])[13CH2][13CH]([13CH3])[13CH3]'])
+
+
+def saturate(rng, m):
+    """variants of a record with EVERY atom labelled (isotope / radical) and with many +-4 atoms: the quantity-dependent
+    neighbourhood of a molecule (property lines holding more than one line's worth of entries)"""
+    out = []
+    c = m.copy()
+    for _, a in c.atoms():
+        a._isotope = sorted(a.isotopes_distribution)[-1]
+    c.flush_cache()
+    out.append(c)
+    c = m.copy()
+    for _, a in c.atoms():
+        a._is_radical = True
+    c.flush_cache()
+    out.append(c)
+    c = m.copy()
+    for i, (_, a) in enumerate(c.atoms()):
+        a._charge = 4 if i % 2 else -4
+    c.flush_cache()
+    out.append(c)
+    return out
+
+
 def special_molecules(rng):
     """(tag, molecule) for the deterministic part of the write->read oracle: laid out with the library's clean2d, coordinates
     snapped to 1/10000, cis/trans labels taken from the drawing, stereo labels that are not valid for it dropped (fix_stereo)"""
     out = []
-    for smi in DEPENDENT_STEREO + FIELD_MIX:
+    for smi in DEPENDENT_STEREO + FIELD_MIX + MANY_LABELS:
         m = molgen.parse(smi)
         if m is None:
             continue
@@ -616,7 +683,7 @@ class Batch:
             return
         bad = 0
         for g, e, c, rq in zip(got, self.exp, self.case, self.req):
-            ctx.cov['disagreements_checked'] += 1
+            ctx.cov['comparisons'] = ctx.cov.get('comparisons', 0) + 1
             if 'err:unsupported' in g:
                 ctx.dist(self.stream + ':out-of-model')
                 continue
@@ -626,6 +693,8 @@ class Batch:
                 ok = g == e
             if not ok:
                 bad += 1
+                ctx.cov['disagreements_checked'] += 1
+                _state.setdefault('disagreement_requests', []).append((self.stream, rq))
                 if bad <= 3:
                     ctx.broke('correspondence', self.stream,
                               f'case {c}\n model: {g[:1200]}\n real : {(e if isinstance(e, str) else "<predicate>")[:1200]}'
@@ -1131,7 +1200,7 @@ def in_meta_domain(md, fmt):
     if len(set(k.strip() for k in ks)) != len(ks):
         return False
     for k, v in md.items():
-        if not k.strip() or k != k.strip() or '\n' in k or k.startswith('chython_'):
+        if not k.strip() or '\n' in k or k.strip().startswith('chython_'):
             return False
         if not norm_value(v):
             return False
@@ -1143,7 +1212,7 @@ def in_meta_domain(md, fmt):
                     return False
         elif fmt in ('RDFWrite', 'ERDFWrite'):
             for l in v.split('\n'):
-                if l.startswith(('$DTYPE', '$RFMT', '$MFMT')):
+                if l.startswith(('$DTYPE', '$DATUM', '$RFMT', '$MFMT')):
                     return False
             # the first value line follows `$DATUM ` on the same line; continuation lines are separate lines
     return True
@@ -1185,7 +1254,7 @@ def diff_records(exp, got):
     if set(exp) != set(got):
         return ['kind']
     out = []
-    if exp['meta'] != got['meta']:
+    if norm_meta(exp['meta']) != norm_meta(got['meta']):
         out.append('meta')
     if 'mol' in exp:
         out += [f for f in exp['mol'] if exp['mol'][f] != got['mol'].get(f)]
@@ -1305,6 +1374,121 @@ def index_check(fmt, text, suffix):
     return None
 
 
+SESSION_SMILES = ['CCO', 'CC(=O)[O-]', 'C=O', '[NH4+]', 'C1CC1', 'CC(C)=O', 'N#N', '[13CH4]', 'C[CH2]', 'OO']
+
+
+def _spec_objs(specs):
+    from chython import smiles, ReactionContainer
+    objs = []
+    for sp in specs:
+        def mk(smi, off=0):
+            m = smiles(smi)
+            for j, (_, a) in enumerate(m.atoms()):
+                a.x, a.y = j * 0.825, (j % 2) * 0.5
+            if off:
+                m.remap({n: n + off for n in m})
+            m.flush_cache()
+            return m
+        if 'rxn' in sp:
+            r, p_ = sp['rxn']
+            o = ReactionContainer([mk(x) for x in r], [mk(x, 100) for x in p_])
+        else:
+            o = mk(sp['smiles'])
+        o.name = sp.get('name', '')
+        o.meta.update(sp.get('meta', {}))
+        objs.append(o)
+    return objs
+
+
+def sessions_check(inp):
+    """records written to a REAL file in several writer sessions (`append=True` from the second one on, or from the
+    first), through str / pathlib.Path / open-file targets and `with`, then read back sequentially and by index"""
+    from pathlib import Path
+    fmt = inp['fmt']
+    W, Rd = io_classes(fmt)
+    d = tempfile.mkdtemp(prefix='c11_')
+    p = os.path.join(d, 'f' + ('.sdf' if 'SDF' in fmt else '.rdf' if 'RDF' in fmt else '.mrv'))
+    sessions = [_spec_objs(sp) for sp in inp['sessions']]
+    exp = [expected_record(o) for ss in sessions for o in ss]
+    try:
+        for k, objs in enumerate(sessions):
+            kw = {}
+            if fmt != 'MRVWrite':
+                kw['append'] = bool(k) or bool(inp.get('first_append'))
+            target = inp.get('target', 'str')
+            if target == 'file':
+                f = open(p, 'a' if kw.get('append') else 'w')
+                w = W(f, **kw)
+            else:
+                w = W(Path(p) if target == 'path' else p, **kw)
+            if inp.get('with'):
+                with w:
+                    for o in objs:
+                        w.write(o)
+            else:
+                for o in objs:
+                    w.write(o)
+                w.close()
+            if target == 'file':
+                f.close()
+        try:
+            back = [_jsonish(obj_record(o)) for o in Rd(p, calc_cis_trans=True)]
+        except Exception as e:
+            return (f'C11/sessions/{fmt}/read-crash/{type(e).__name__}', f'reading the file written in {len(sessions)} sessions raised {e!r}', inp)
+        if len(back) != len(exp):
+            return (f'C11/sessions/{fmt}/record-count', f'{len(back)} records read, {len(exp)} written in {len(sessions)} sessions', inp)
+        for i, (e, b) in enumerate(zip(exp, back)):
+            dd = diff_records(e, b)
+            if dd:
+                return (f'C11/sessions/{fmt}/' + '+'.join(x.split('.')[-1] for x in dd)[:60],
+                        f'record {i} of a file written in {len(sessions)} sessions (append mode, target {inp.get("target", "str")}): fields changed {dd}', inp)
+        if fmt != 'MRVWrite':
+            r = Rd(p, indexable=True, calc_cis_trans=True)
+            try:
+                if len(r) != len(exp):
+                    return (f'C11/sessions/{fmt}/index-length', f'len(indexed reader) = {len(r)}, {len(exp)} records written', inp)
+                for i in range(len(exp)):
+                    if diff_records(exp[i], _jsonish(obj_record(r[i]))):
+                        return (f'C11/sessions/{fmt}/index-record-differs', f'reader[{i}] differs from the record written', inp)
+            finally:
+                r.close()
+                try:
+                    os.remove(r._cache_path)
+                except OSError:
+                    pass
+    finally:
+        import shutil
+        shutil.rmtree(d, ignore_errors=True)
+    return None
+
+
+def rand_sessions(rng, fmt):
+    def spec():
+        if fmt in ('RDFWrite', 'ERDFWrite', 'MRVWrite') and rng.random() < 0.3:
+            sp = {'rxn': [[rng.choice(SESSION_SMILES)], [rng.choice(SESSION_SMILES)]]}
+        else:
+            sp = {'smiles': rng.choice(SESSION_SMILES)}
+        sp['name'] = rng.choice(['', 't ' + rand_text(rng, 1, 8, SAFE.replace(' ', ''))])
+        md = rich_meta(rng, nkeys=rng.choice([1, 1, 2]))      # every record carries metadata: stray lines must show
+        sp['meta'] = md if in_meta_domain(md, fmt) else {'k': 'v'}
+        return sp
+    ns = 1 if fmt == 'MRVWrite' else rng.choice([2, 2, 3])
+    return {'kind': 'sessions', 'fmt': fmt, 'sessions': [[spec() for _ in range(rng.choice([1, 2, 3]))] for _ in range(ns)],
+            'first_append': rng.random() < 0.3, 'target': rng.choice(['str', 'str', 'path', 'file']), 'with': rng.random() < 0.5}
+
+
+def sessions_stream(ctx, n):
+    rng = ctx.rng
+    for fmt in WRITERS:
+        for _ in range(n if fmt != 'MRVWrite' else max(2, n // 3)):
+            inp = rand_sessions(rng, fmt)
+            ctx.count(('RT-sessions', fmt, repr(inp)))
+            ctx.dist('RT:sessions:' + fmt)
+            r = sessions_check(inp)
+            if r:
+                ctx.fail(*r)
+
+
 def damage_check(inp):
     """a damaged record is skipped without losing the others: records before/after position k must be read unchanged"""
     fmt = inp['fmt']
@@ -1365,7 +1549,7 @@ def make_objects(rng, mols, fmt, k):
             o = rng.choice(mols)[1].copy()
             o.meta.clear()
         o.name = rng.choice(['', rand_text(rng, 1, 20, SAFE).strip(), 'see M  END', 'x $$$$ y', 'a >  <b>', 'p $MFMT $DTYPE $DATUM'])
-        md = rand_meta(rng, wf=True)
+        md = rich_meta(rng) if rng.random() < 0.6 else rand_meta(rng, wf=True)
         if in_meta_domain(md, fmt):
             o.meta.update(md)
         objs.append(o)
@@ -1396,6 +1580,16 @@ def stream_roundtrip(ctx, mols, n):
                 r = string_api_check(fmt, o, write_text(fmt, [o]))
                 if r:
                     ctx.fail(*r)
+    for fmt in WRITERS:
+        for md in META_SPECIAL:
+            if not in_meta_domain(md, fmt):
+                continue
+            ctx.count(('RT-meta-special', fmt, tuple(md.items())))
+            ctx.dist('RT:meta-special:' + fmt)
+            r = meta_probe({'kind': 'meta', 'fmt': fmt, 'meta': md, 'neighbours': True})
+            if r:
+                ctx.fail(*r)
+    sessions_stream(ctx, 6 if ctx.quick else 60)
     for fmt in WRITERS:
         for _ in range(n):
             objs = make_objects(rng, mols, fmt, rng.choice([1, 1, 2, 3]))
@@ -1521,7 +1715,43 @@ def search(ctx):
             c.flush_cache()
             yield c
     special = _state.get('special') or [(t, m) for t, m in special_molecules(rng) if in_stereo_domain(m)]
-    first = seeds + [(t + ':mix', x) for t, m in seeds[:10] for x in mixes(m)] + special
+    first = seeds + [(t + ':saturated', x) for t, m in seeds[:10] for x in saturate(rng, m)] + \
+        [(t + ':mix', x) for t, m in seeds[:10] for x in mixes(m)] + special
+    # (iii) disagreeing framing / metadata cases carry text, not molecules: their lines become metadata values of a record
+    #       (lines the format cannot represent are dropped), and the normalisation-equivalent spellings are tried
+    def text_of(rq):
+        try:
+            toks = rq.split(' ')
+            start = 2 if toks[0] in ('sdfread', 'rdfread') else 1
+            return ''.join(chr(int(x)) for x in toks[start:] if x)
+        except ValueError:
+            return ''
+    metas = list(META_SPECIAL)
+    for stream, rq in _state.get('disagreement_requests', [])[:20]:
+        if stream.startswith(('M:', 'F:')):
+            lines = [l for l in text_of(rq).split('\n')][:40]
+            for fmt in WRITERS:
+                keep = [l for l in lines if in_meta_domain({'k': (l or ' ') + '\nx'}, fmt) or not l.strip()]
+                for i in range(0, len(keep), 6):
+                    v = '\n'.join(keep[i:i + 6])
+                    if norm_value(v):
+                        metas.append({'k': v})
+    for md in metas[:200]:
+        if time.time() > t_end or len(ctx.failures) >= 5:
+            break
+        for fmt in WRITERS:
+            if in_meta_domain(md, fmt):
+                r = meta_probe({'kind': 'meta', 'fmt': fmt, 'meta': md, 'neighbours': True})
+                if r:
+                    ctx.fail(*r)
+                    break
+    for fmt in WRITERS:
+        for _ in range(4):
+            if time.time() > t_end or len(ctx.failures) >= 5:
+                break
+            r = sessions_check(rand_sessions(rng, fmt))
+            if r:
+                ctx.fail(*r)
     for tag, m in first:
         if time.time() > t_end:
             break
@@ -1559,6 +1789,8 @@ def probe(inp):
         r = damage_check(inp)
     elif kind == 'meta':
         r = meta_probe(inp)
+    elif kind == 'sessions':
+        r = sessions_check(inp)
     elif kind == 'string-api':
         from chython.files import mdl_mol, mdl_rxn
         lines = inp['text'].splitlines(keepends=True)
